@@ -23,8 +23,9 @@ or equal as numbers, with the same interleaved sequence of tokens and comments, 
 line structure again (`Proof/RenderItems.lean`, `RenderShape.lean`, `RenderTokWf.lean`,
 `RenderClosure.lean`); `render_retokenizes_partial` is the same for every well-formed stream.
 That the output PARSES again is not modelled.
-`render_idempotent` is stated in full below and is OPEN as a theorem; it is evaluated on the
-implementation, and the models tied to it byte-for-byte, on every run.
+`RenderIdempotent` is stated in full below; `render_idempotent` is PROVED in
+`Props/C12RenderIdem.lean` (with `linesOK` and `numColonFree` in place of "the parser accepts", and
+the line bound).
 -/
 import WuffsVerif.Proof.RenderNum
 import WuffsVerif.Proof.RenderPairs
@@ -76,12 +77,13 @@ def RenderIdempotent (Accepts : List Tok → Prop) : Prop :=
 --   `rok`); `render_retokenizes_of_source` (the same without the closure conjunct) and
 --   `render_retokenizes_partial` (for every stream with the decidable hypothesis `streamOK`, not only
 --   results of Tokenize).  Not covered: that the output PARSES again (checked on the implementation only).
--- OPEN: theorem render_idempotent : RenderIdempotent ParserAccepts
---   Missing: that Render's decisions (indent, hanging, blank lines, varNameLength) depend on the line numbers
---   only through equality / adjacency, which the re-read stream (`piecesOut`, `piecesC`) preserves, and that
---   what Render writes for a re-read number is the number again (`appendNum` is idempotent on its own output).
---   The clause is evaluated on the real Tokenize/Parse/Render for every harness case, and `fmt` (Tokenize +
---   Render of the models) is compared byte-for-byte with the implementation.
+-- `RenderIdempotent ParserAccepts` as such is not provable for the same two reasons.  PROVED in
+--   `Props/C12RenderIdem.lean`: `render_idempotent : RenderIdempotentBelowMaxLine idemAccepts` — the clause in full
+--   with the line bound and with `idemAccepts toks := linesOK … toks ∧ numColonFree toks` (no numeric literal directly
+--   before a ":"; the parser only takes a ":" after an identifier or a fixed keyword); without `numColonFree` the
+--   clause is false for the models (`render_idempotent_needs_numColonFree`).  Both hypotheses are evaluated by the
+--   driver on every source the real wuffsfmt accepts (op `rok`), the clause itself on the implementation for every
+--   harness case, and `fmt` (Tokenize + Render of the models) is compared byte-for-byte with the implementation.
 
 /-! ## `render_retokenizes` -/
 
